@@ -105,7 +105,9 @@ func (r restClientProtocol) addProtocolResponseHeaders(meta responseMeta, header
 	isErr := meta.end != nil && meta.end.err != nil
 	// Only JSON is supported for now unless using google.api.HttpBody
 	// payloads which override the content-type.
-	if headers["Content-Type"] == nil {
+	if isErr || headers["Content-Type"] == nil {
+		// An error is always rendered as a google.rpc.Status in the client's
+		// codec, whatever content-type the server gave its own response.
 		headers["Content-Type"] = []string{contentRestPrefix + meta.codec}
 	}
 	if !isErr && meta.compression != "" {
